@@ -179,8 +179,8 @@ pub fn run_pipelined(bin: &Path, opts: &SpawnOpts, lines: &[String], end: End, c
         .iter()
         .filter(|e| e.dir == Dir::Out)
         .filter_map(|e| {
-            if let Some(r) = e.line.strip_prefix("bestmove") {
-                Some(('B', r.trim().to_string()))
+            if e.line.starts_with("bestmove") {
+                Some(('B', crate::sess::bestmove_text(&e.line)))
             } else if e.line == "readyok" {
                 Some(('R', String::new()))
             } else {
